@@ -22,7 +22,9 @@ META = {
                'mutable container through self (two compilations in one process are independent); template/argument '
                'agreement; header counters; in-memory and file Python tables are built from the same fields; the zone list is the '
                'set of emitted zones; the checked-in Python database is internally consistent and equals its recorded lines; '
-               'basic zone names are a subset of extended zone names',
+               'basic zone names are a subset of extended zone names; the in-memory and the file tables keep the rules of a policy in '
+               'the order of its Rule lines (also when that is not FROM order); the zone-name and format string collections handed to '
+               'the generators name exactly what is emitted',
     'not_decided': 'byte identity of two runs of the compiler; agreement of tools/zonedbpy with zic at every instant',
     'assumptions': ['CPython ast', 'TZ line grammar of acv/tzline.py', 'str(list) of the exempt reason lists is outside the claim'],
 }
@@ -61,6 +63,7 @@ def run(cfg):
     pydb_rule(cfg, R)
     scope_subset_rule(cfg, R)
     zone_list_rule(cfg, R)
+    strings_rule(cfg, R)
     return R
 
 
@@ -126,6 +129,45 @@ def scope_subset_rule(cfg, R):
                     R.violation('R8', c, loc, '[%s] %s %s is emitted in basic scope but not in extended scope (extended lists it as removed: %s)' % (
                         label, kind, name, x[rem].get(name)))
                     break
+
+
+def strings_rule(cfg, R):
+    """R10 (E-SEQ, acv/pipeline.py): the collections of zone-name and FORMAT / LETTER strings the compiler hands to the generators
+    (written as kZoneStrings / kFormatStrings and into tzdb.json) are computed from the zones and policies it emits - a zone that a
+    later filter drops (two names that normalise to one symbol) has no string.  Decided on the feature source, both scopes."""
+    from . import pipeline
+    R.rule('R10', 'the zone-name and format string collections name exactly the emitted zones and the formats / letters of the emitted eras and rules', floor=4)
+    tr = py.load(cfg, pipeline.TR)
+    loc = tr.fn('Transformer.transform').loc
+    text = pipeline.feature_text()
+    for scope in ('basic', 'extended'):
+        try:
+            db, _raw = pipeline.compile_text(cfg, text, scope)
+        except pipeline.Raised as r_:
+            R.instance('R10', 'features[%s]:compile' % scope, loc)
+            R.violation('R10', 'features[%s]:compile' % scope, loc, '%s' % r_.what)
+            continue
+
+        def keys(coll):
+            om = coll.get('ordered_map') if isinstance(coll, dict) else getattr(coll, 'ordered_map', None)
+            if om is None and hasattr(coll, 'attrs'):
+                om = coll.attrs.get('ordered_map')
+            if om is None:
+                raise AnalysisError('%s: a string collection without ordered_map (%r)' % (loc, coll))
+            return set(om)
+        c = 'features[%s]:zone_strings' % scope
+        R.instance('R10', c, loc)
+        got, want = keys(db['zone_strings']), set(db['zones_map'])
+        if got != want:
+            R.violation('R10', c, loc, '[%s] the zone-name strings and the emitted zones differ: strings without a zone %s, zones without a string %s' % (
+                scope, sorted(got - want)[:6], sorted(want - got)[:6]))
+        c = 'features[%s]:format_strings' % scope
+        R.instance('R10', c, loc)
+        got = keys(db['format_strings'])
+        want = {e_['format'].replace('%s', '%') for es_ in db['zones_map'].values() for e_ in es_} | {r_['letter'] for rs_ in db['rules_map'].values() for r_ in rs_}
+        if got != want:
+            R.violation('R10', c, loc, '[%s] the format strings and the formats / letters of what is emitted differ: extra %s, missing %s' % (
+                scope, sorted(got - want)[:6], sorted(want - got)[:6]))
 
 
 def order_rule(R, mods):
